@@ -1311,26 +1311,40 @@ mod wake {
             match *tag {
                 "wcq.link" => m.ensure(i),
                 "wcq.park" => {
-                    m.flush_holder();
                     m.ensure(i);
                     parks += 1;
                     if a[1] == 1 && m.ents[i].st == St::Outp {
                         // it read `Stolen` before the store whose log entry precedes this one: its
                         // check goes before that delivery (it held the queue mutex all along, so
-                        // only the leader's lock-free steps can lie in between)
+                        // only the leader's lock-free steps can lie in between).  The release of
+                        // the previous holder is written lazily (`flush_holder`): it is not among
+                        // the tokens looked at here — looking at them after the flush took that
+                        // `P` for a mutex event in between (the false alarm of the loaded runs) —
+                        // and it goes in front of this caller's check, which needed the mutex.
                         let at = *m.deliver_pos.get(&i).unwrap_or(&usize::MAX);
                         if at == usize::MAX || m.toks[at..].iter().any(|t| !(t == "D" || t == "U" || t == "L")) {
+                            m.flush_holder();
                             m.problems.push(format!("caller {} read Stolen after its delivery was logged, with mutex events in between", i));
                         } else {
-                            m.toks.insert(at, format!("K{},0,p", i));
+                            let mut ins: Vec<String> = vec![];
+                            if let Some(h) = m.holder.take() {
+                                ins.push("P".into());
+                                m.ents[h].parked = true;
+                            }
+                            ins.push(format!("K{},0,p", i));
+                            let n_ins = ins.len();
+                            for (k, t) in ins.into_iter().enumerate() {
+                                m.toks.insert(at + k, t);
+                            }
                             for (_, v) in m.deliver_pos.iter_mut() {
                                 if *v >= at {
-                                    *v += 1;
+                                    *v += n_ins;
                                 }
                             }
                             m.window_hits += 1;
                         }
                     } else {
+                        m.flush_holder();
                         m.toks.push(format!("K{},0,p", i));
                     }
                     m.holder = Some(i);
